@@ -91,7 +91,7 @@ inductive Res (α : Type) where
   | typeError (log : List String)
   | refError (log : List String)
   | thrown (v : Val) (log : List String)
-deriving Repr
+deriving Repr, DecidableEq
 
 def Res.bind {α β : Type} (r : Res α) (f : α → List String → Res β) : Res β :=
   match r with
